@@ -19,9 +19,36 @@ TIMES_T = TIMES_Q + [[0, 2, 0], [1, 0, 0]]
 OTHERS = {"REM GENRE Rock", 'PERFORMER "Nobody"', "FLAGS DCP", "PREGAP 00:02:00", "CATALOG 1234567890123"}
 
 
-def model(max_tracks, times, binlens, with_data=False, emit=True, others=("REM GENRE Rock",)):
+def model(max_tracks, times, binlens, with_data=False, emit=True, others=("REM GENRE Rock",), repeats=(1,), dense=False):
     return tlc.prepare("Cue", dict(MaxTracks=max_tracks, Times=times, BinLens=set(binlens), WithData=with_data, Others=set(others),
-                                   EmitCases=emit), invariants=INVS)
+                                   Repeats=set(repeats), Dense=dense, EmitCases=emit), invariants=INVS)
+
+
+# long sheets: Cue.tla's recursive parser needs a deep Java stack for sheets of hundreds / thousands of lines
+DEEP = {"JAVA_TOOL_OPTIONS": "-Xss1g"}
+TIMES_99 = [[k // 30, (2 * k) % 60, 0] for k in range(99)]                   # 99 tracks, two seconds apart
+LONG_REM = "REM " + "long remark " * 5                                        # 64 characters
+
+
+def long_cases(chk: Check, thorough: bool):
+    """sheets far longer than the 1-3 track ones: the 99-track sheet (every track titled, every second one with a second
+    INDEX), bare and with 200 remarks before FILE / in the middle / at the end; and a short sheet with 2500 copies of a
+    64-character remark at every allowed position (more than 160 kB of text in front of the lines that matter)"""
+    dense = chk.run_model(model(99, TIMES_99, {2352, 2355}, others=(LONG_REM,), repeats=(1, 200), dense=True), env=DEEP, workers=8,
+                          label="design: the 99-track sheet, bare and with 200 remarks at the start / middle / end", timeout_s=3000).cases
+    bulk = chk.run_model(model(2 if thorough else 1, TIMES_Q[:2], {2352}, others=(LONG_REM,), repeats=(2500,)), env=DEEP, workers=16,
+                         label="design: MeaningUnchanged under 2500 copies of a remark at every allowed position", timeout_s=3000).cases
+    return [expand(c) for c in dense], [expand(c) for c in bulk if c["ins"]["pos"] != 0]
+
+
+def expand(case: dict) -> dict:
+    """a bulk insertion (rep > 3) is emitted without the decorated lines: rebuild them (Apply of Cue.tla)"""
+    ins = case["ins"]
+    if case["lines"] or ins["pos"] == 0:
+        return case
+    c = dict(case)
+    c["lines"] = case["canonical"][: ins["pos"] - 1] + [ins["line"]] * ins["rep"] + case["canonical"][ins["pos"] - 1:]
+    return c
 
 
 def expected_files(case: dict, data: bytes) -> Dict[str, bytes]:
@@ -103,7 +130,7 @@ def sweep_cases(chk: Check, thorough: bool):
     times = [[0, s, f] for s in (0, 1, 2) for f in range(75)]
     if thorough:
         times += [[0, 59, f] for f in range(0, 75, 7)] + [[1, 0, f] for f in range(0, 75, 11)]
-    res = chk.run_model(tlc.prepare("Cue", dict(MaxTracks=1, Times=times, BinLens={2352, 2355}, WithData=False, Others=set(), EmitCases=True),
+    res = chk.run_model(tlc.prepare("Cue", dict(MaxTracks=1, Times=times, BinLens={2352, 2355}, WithData=False, Others=set(), Repeats={1}, Dense=False, EmitCases=True),
                                     invariants=["WindowsTile", "Emit"]), label=f"design: one-track sheets over {len(times)} index times", timeout_s=3000)
     plain = [c for c in res.cases if c["ins"]["pos"] == 0 and not any(l["c"] == "TITLE" for l in c["lines"])]
     return plain
@@ -113,7 +140,8 @@ def run(chk: Check):
     thorough = chk.tier == "thorough"
     chk.rule = ("TLC enumerates every sheet of 1..n AUDIO tracks with first-index times from a set crossing the MSF carries "
                 "(with/without TITLE, pregap INDEX 00, a second INDEX), every cosmetic insertion position and bin lengths "
-                "k*2352 + {0,1,3,4,2351}; replayed: all undecorated sheets and a stride of decorated ones; non-trivial = >= 2 tracks")
+                "k*2352 + {0,1,3,4,2351}; replayed: all undecorated sheets and a stride of decorated ones; long sheets: the 99-track sheet "
+                "(bare / with 200 remarks) and short sheets with 2500 remarks at every allowed position; non-trivial = >= 2 tracks")
     cases = cases_for(chk, thorough)
     chk.exhaustive = True
     plain = [c for c in cases if c["ins"]["pos"] == 0]
@@ -131,7 +159,11 @@ def run(chk: Check):
         todo = todo[::max(1, len(todo) // 350)]
     sw = sweep_cases(chk, thorough)
     sw = sw if thorough else [c for c in sw if c["binlen"] % 2352 == 0 and len(c["lines"]) == 3]      # FILE, TRACK, INDEX 01
-    for i, c in enumerate(todo + sw):
+    dense, bulk = long_cases(chk, thorough)
+    long_ = [c for c in dense if c["binlen"] % 2352 or thorough] + bulk[:: (1 if thorough else max(1, len(bulk) // 6))]
+    chk.extra["long_sheets"] = {"dense_99_tracks": len(dense), "bulk_2500_remarks": len(bulk), "replayed": len(long_),
+                                "largest_text_bytes": max(len("".join(cue.render(c["lines"], 0, 1))) for c in long_)}
+    for i, c in enumerate(todo + sw + long_):
         run_case(chk, c, chk.seed + i, i % len(cue.STYLES))
     chk.sample({"text": cue.render(todo[len(todo) // 2]["lines"], 1, 1), "binlen": todo[len(todo) // 2]["binlen"],
                 "windows": todo[len(todo) // 2]["windows"]})
